@@ -14,7 +14,8 @@ THEOREMS = ["C06_delayed_retry_parked", "C06_not_before_delay", "C06_only_timer_
             "C06_retry_never_before_its_delay", "C06_pending_retries_wait_out_their_delay",
             "C06_fresh_run_retry_never_before_its_delay", "C06_every_action_keeps_delays",
             "C06_chain_link_of_retry", "C06_chain_head_never_used", "C06_refuted_for_every_such_chain",
-            "C06_exponential_delay_of_retry", "C06_first_retry_delays", "C06_delay_source_shape"]
+            "C06_exponential_delay_of_retry", "C06_first_retry_delays", "C06_delay_source_shape",
+            "C06_failure_of_rescheduled_execution_skipped"]
 LEAN_TARGETS = ["WfProps.C06"]
 EXPLANATION = (
     "Proved on the runner LTS: a retry granted with delay d>0 at time t is parked in the timer heap for t+d and only the "
